@@ -11,6 +11,10 @@ fn same_attr(a: &Value, b: &Value) -> bool {
     if empty(a) && empty(b) {
         return true;
     }
+    // the parser drops digit separators
+    if let (Some(x), Some(y)) = (a.as_str(), b.as_str()) {
+        return x.replace('_', "") == y.replace('_', "");
+    }
     a == b
 }
 
